@@ -85,7 +85,7 @@ def check_all(chk, prog, rule):
                 chk.ok(rule, "%s: `%s %s quorum` (boundary at rf/2+1)" % (fn.split("::")[-1], show(count), op2), body.where(s["line"]))
             else:
                 chk.fail(rule, fn, "quorum-boundary:%s" % show(count), "count is compared with the quorum using %s; the boundary must be `count >= rf/2+1` (or its negation `count < quorum`)" % op2, body, s["line"])
-    chk.floor(rule, n, 12)
+    chk.floor(rule, n, 8)
     return n
 
 
